@@ -318,7 +318,9 @@ fn forge_something(s: &mut Sess, tr: &mut Trace, r: &mut Rng, nclients: usize, n
             // undersized SYN: right type byte, short length, valid CRC; limits of every size class (a parser that
             // ties the required padding to a field must still insist on the full frame)
             let mut b = syn_bytes(3, r.next() as u32, *r.pick(&[2_000_000u32, 0, 1]), *r.pick(&[1_000_000u32, 0, 1, 4, 100, 1448, 65536]), *r.pick(&[1_000_000u32, u32::MAX, 65536]));
-            b.truncate(*r.pick(&[21usize, 22, 25, 100, 1471]));
+            // lengths: below / at the header size, small, around the totals a server may send back (25 x 10, 25 x 11), large
+            let cut = match r.below(3) { 0 => *r.pick(&[21usize, 22, 25, 100, 1471]), 1 => *r.pick(&[249usize, 250, 260, 275, 276, 300, 500, 736, 1000, 1470]), _ => r.range(22, 1471) as usize };
+            b.truncate(cut);
             let n = b.len();
             let crc = uv::crc_compute(&b[..n - 4]);
             b[n - 4] = (crc >> 24) as u8; b[n - 3] = (crc >> 16) as u8; b[n - 2] = (crc >> 8) as u8; b[n - 1] = crc as u8;
